@@ -189,3 +189,15 @@ func (this *RaftTransport) VerifGroups() []*RaftGroup {
 }
 
 func (this *RaftGroup) VerifId() [16]byte { return this.id }
+
+// VerifConfNodes returns the member ids of the last applied membership change
+// (read on the ready-loop goroutine); nil if none was applied by this incarnation.
+func (this *RaftGroup) VerifConfNodes() []uint64 {
+	var out []uint64
+	this.VerifOnLoop(func(uint64) {
+		if this.raftConfState != nil {
+			out = append(out, this.raftConfState.Nodes...)
+		}
+	})
+	return out
+}
